@@ -112,7 +112,8 @@ class ProcessWorker(Worker):
                 # a stopped child, or one stuck inside C code, never answers: do not wait longer than the timeout
                 if self._ctrl_comms.parent_end.poll(timeout):
                     self._ctrl_comms.parent_end.get()
-            except (BrokenPipeError, queue.Empty):
+            except (OSError, queue.Empty):
+                # the child is closing down on its own: its control thread is gone (broken pipe, connection reset)
                 pass
 
             self._release_child()
